@@ -213,7 +213,20 @@ thread_local! {
 static SCRATCH_SEQ: std::sync::atomic::AtomicU64 = std::sync::atomic::AtomicU64::new(0);
 
 pub fn scratch_root() -> PathBuf {
-    std::env::temp_dir().join(format!("mahf-verif-sim-{}", std::process::id()))
+    // the simulated disk writes through to real files, millions of them per thorough run: keep
+    // them in memory where the system offers a RAM-backed file system (VERIF_SCRATCH overrides)
+    let base = match std::env::var_os("VERIF_SCRATCH") {
+        Some(p) => PathBuf::from(p),
+        None => {
+            let shm = PathBuf::from("/dev/shm");
+            if shm.is_dir() && std::fs::metadata(&shm).map(|m| !m.permissions().readonly()).unwrap_or(false) {
+                shm
+            } else {
+                std::env::temp_dir()
+            }
+        }
+    };
+    base.join(format!("mahf-verif-sim-{}", std::process::id()))
 }
 
 /// A private scratch directory for the calling thread (removed by `cleanup_scratch`).
@@ -231,6 +244,20 @@ pub fn scratch_dir() -> PathBuf {
         }
         s.clone().unwrap()
     })
+}
+
+/// Removes scratch directories left behind by simulator processes that no longer exist.
+pub fn cleanup_stale_scratch() {
+    let Some(base) = scratch_root().parent().map(|p| p.to_path_buf()) else { return };
+    let Ok(rd) = std::fs::read_dir(&base) else { return };
+    for e in rd.flatten() {
+        let name = e.file_name().to_string_lossy().to_string();
+        if let Some(pid) = name.strip_prefix("mahf-verif-sim-").and_then(|p| p.parse::<u32>().ok()) {
+            if pid != std::process::id() && !Path::new(&format!("/proc/{pid}")).exists() {
+                let _ = std::fs::remove_dir_all(e.path());
+            }
+        }
+    }
 }
 
 pub fn cleanup_scratch() {
